@@ -86,7 +86,8 @@ def raise_sites(chk):
                     if built is not None:
                         name = built
                 sites.append((rel, scan.enclosing_function(x, par), name))
-    other = sorted({s for s in sites if s[2] != "CParsingError" and not s[0].endswith("lexer/lexer.py")})
+    # (`raise AssertionError(...)` is the long form of an assert statement: not a way the tool reports)
+    other = sorted({s for s in sites if s[2] not in ("CParsingError", "AssertionError") and not s[0].endswith("lexer/lexer.py")})
     chk.frame("raises.rules_raise_only_CParsingError", not other, {"sites": len(sites), "other": other},
               what=f"explicit raise of something else than the controlled fatal error: {other}")
     lexer_exc = sorted({s[2] for s in sites if s[0].endswith("lexer/lexer.py")})
